@@ -638,9 +638,12 @@ void worker_loop(int w, bool resume) {
   g_slot = &g_sh->slots[w];
   Slot *s = g_slot;
   s->pid = getpid();
-  {
+  const char *pin_env = getenv("VF_PIN");  // development aid: VF_PIN=0 / 1 overrides the default below
+  if (pin_env ? pin_env[0] == '1' : g_opt.fork_per_exec) {
     // one CPU per worker: the threads of an execution run strictly one at a time, so keeping them
-    // on one CPU makes every hand-off a local context switch
+    // on one CPU makes every hand-off a local context switch. In-process (sequence engine) workers have no
+    // hand-offs and are left to the kernel's balancing: on a shared machine a pinned worker starves behind
+    // whatever else runs on its CPU and a deadline-limited quick tier then explores a fraction of its space.
     long ncpu = sysconf(_SC_NPROCESSORS_ONLN);
     cpu_set_t set;
     CPU_ZERO(&set);
